@@ -13,7 +13,7 @@ if [ -n "$src" ] && [ -d "$src" ]; then
 fi
 W=/dev/shm/seed-$id-$$
 git -C /repo worktree add -q --detach "$W" HEAD || exit 2
-trap 'git -C /repo worktree remove --force "$W" >/dev/null 2>&1; rm -rf /dev/shm/seed-ev-$$ /dev/shm/seed-patch-$$.diff' EXIT
+trap 'git -C /repo worktree remove --force "$W" >/dev/null 2>&1; rm -rf "$ROOT"/.build/alt-*seed-$id-$$* ; rm -rf /dev/shm/seed-ev-$$ /dev/shm/seed-patch-$$.diff' EXIT
 applies=yes; git -C "$W" apply "$D/patch.diff" 2>/dev/null || { git -C "$W" apply -3 "$D/patch.diff" >/dev/null 2>&1 && git -C "$W" reset -q; } || applies=no
 # (a later fix: commit can shift the context of an older patch: the 3-way fallback re-bases it; the
 # re-based form is what the rest of this script applies and reverts)
